@@ -326,8 +326,12 @@ pub fn realise_type(g: &Graph, salt: u64, arrays: bool) -> (String, Vec<(usize, 
         s.push_str("TYPE\n");
         if outdeg[i] == 0 {
             // (a third of the enumerations with a default value)
-            let dflt = if mix(salt ^ (i as u64 * 911)) % 3 == 0 { format!(" := v{}a", i) } else { String::new() };
-            s.push_str(&format!("t{} : (v{}a, v{}b){};\n", i, i, i, dflt));
+            // (a value may be written with the type in front of it - the declaration's own name:
+            // a name used inside its own declaration is no reference to another declaration)
+            let q = |z: u64| if mix(salt ^ (i as u64 * 4409) ^ z) % 3 == 0 { format!("{}#", recase(&format!("t{}", i), salt ^ z)) } else { String::new() };
+            let dflt = if mix(salt ^ (i as u64 * 911)) % 3 == 0 { format!(" := {}v{}a", q(1), i) } else { String::new() };
+            let (qa, qb) = if mix(salt ^ (i as u64 * 6113)) % 4 == 0 { (q(2), q(3)) } else { (String::new(), String::new()) };
+            s.push_str(&format!("t{} : ({}v{}a, {}v{}b){};\n", i, qa, i, qb, i, dflt));
         } else if outdeg[i] == 1 && alias[i] {
             let j = (0..g.n).find(|&j| g.adj[i][j]).unwrap();
             // half of the aliases of enumerations carry an initial value (`t1 : t2 := v;` is an
@@ -346,7 +350,12 @@ pub fn realise_type(g: &Graph, salt: u64, arrays: bool) -> (String, Vec<(usize, 
                         _ => break,
                     }
                 }
-                format!(" := v{}a", root.unwrap_or(0))
+                // (plain, or with a type in front: the alias itself, or the enumeration at the end)
+                match (mix(salt ^ (i as u64 * 7019)) % 4, root) {
+                    (0, _) => format!(" := {}#v{}a", recase(&format!("t{}", i), salt ^ 5), root.unwrap_or(0)),
+                    (1, Some(r)) => format!(" := {}#v{}a", recase(&format!("t{}", r), salt ^ 6), r),
+                    _ => format!(" := v{}a", root.unwrap_or(0)),
+                }
             } else {
                 String::new()
             };
